@@ -260,9 +260,20 @@ func genDecHistory(t *rapid.T, x *decExec, o decOpts) {
 			}
 			x.step(DOp{Op: "writeto", W: ev})
 		case 6:
-			if x.buf != nil && rapid.Bool().Draw(t, "reinit") {
-				x.step(DOp{Op: "reinit"})
-			} else {
+			switch rapid.IntRange(0, 3).Draw(t, "reinit") {
+			case 0:
+				if x.buf != nil {
+					x.step(DOp{Op: "reinit"})
+				} else {
+					x.step(DOp{Op: "reset"})
+				}
+			case 1:
+				// Init again with another geometry; the array of the old
+				// stream stays with the buffer
+				nc := genDCfg(t)
+				x.step(DOp{Op: "reinit", Cfg: &nc})
+				cc = x.cc
+			default:
 				x.step(DOp{Op: "reset"})
 			}
 		case 7:
